@@ -229,6 +229,27 @@ pub fn print(args: &[String]) -> String {
     }
 }
 
+// parse2 <text>: the same text parsed twice, by both entry points: are the two documents EQUAL (`==`), do they print alike?
+//   `ok eq=<0|1> eqdom=<0|1> print=<0|1>` | err:<class>        (property C19)
+pub fn parse2(args: &[String]) -> String {
+    let text = args.first().cloned().unwrap_or_default();
+    let mk = || -> Result<info::XmlNode<info::XmlDocument>, String> {
+        let (_, tree) = xml_parser::document(&text).map_err(|_| "err:syntax".to_string())?;
+        info::XmlDocument::new(&tree).map_err(|e| format!("err:{}", info_err_class(&e)))
+    };
+    let (a, b) = match (mk(), mk()) {
+        (Ok(a), Ok(b)) => (a, b),
+        (Err(e), _) | (_, Err(e)) => return e,
+    };
+    let eq = *a.borrow() == *b.borrow();
+    let pr = format!("{}", a.borrow()) == format!("{}", b.borrow());
+    let eqdom = match (XmlDocument::from_raw(&text), XmlDocument::from_raw(&text)) {
+        (Ok((_, x)), Ok((_, y))) => (x == y) as u8,
+        _ => 2,
+    };
+    format!("ok eq={} eqdom={} print={}", eq as u8, eqdom, pr as u8)
+}
+
 // roundtrip <text>: print, re-parse, compare, print again (property C04)
 //   `ok rest2=<enc> same=<0|1> eq=<0|1> fix=<0|1>` | `err:<class>` (first parse) | `reparse-err:<class> <enc s1>`
 pub fn roundtrip(args: &[String]) -> String {
